@@ -22,6 +22,10 @@ func (_ ValueString) Kind() ValueKind { return StringValueKind }
 func (self ValueString) Display() (string, *Interrupt) { return self.Inner, nil }
 
 func (self ValueString) IsEqual(other Value) (bool, *Interrupt) {
+	// values of different kinds may meet where the static type is `any` (inside an option, an any-object)
+	if other.Kind() != self.Kind() {
+		return false, nil
+	}
 	return self.Inner == other.(ValueString).Inner, nil
 }
 
